@@ -75,10 +75,13 @@ def sizing_replay(ctx, thorough, rnd):
     t0 = time.time()
     strs = []
     for k, (r, t) in enumerate(zip(recs, traces)):
-        if t["outcome"] != "ok":
-            continue
         evs = [norm_event(e) for e in extras[t["id"]]["hooks"] if e["ev"] in ("Translated", "SizeDecide", "Sweep")]
-        strs.append({"id": k, "prog": r["prog"], "events": evs, "final": [len(o["bytes"]) for o in t["obs"]], "specfinal": r["final"]})
+        if t["outcome"] != "ok":
+            # the loop did not come to an end (watchdog) or the program was rejected later: the events seen so far must still follow the step function
+            if t["outcome"] == "timeout" and evs:
+                strs.append({"id": k, "prog": r["prog"], "events": evs[:120], "final": [], "specfinal": r["final"], "partial": True})
+            continue
+        strs.append({"id": k, "prog": r["prog"], "events": evs, "final": [len(o["bytes"]) for o in t["obs"]], "specfinal": r["final"], "partial": False})
     if strs:
         vs, st = tlc.bulk("Tr_Sizing", strs, nproc=asmcheck.NPROC_JVM)
         nohook = 0
